@@ -427,7 +427,7 @@ def iso_env(desc):
     return e[1], T, e[4], M, ru.rho_liq_molar(e[1], T) * M
 
 
-def build_iso(desc, p_rel, q_mol, units=None, name="m-0"):
+def build_iso(desc, p_rel, q_mol, units=None, name="m-0", allow_des=True):
     """PointIsotherm holding the canonical data (relative pressure, mol per material unit) in the drawn units."""
     fluid, T, *_ = iso_env(desc)
     units = units or desc["units"]
@@ -435,11 +435,30 @@ def build_iso(desc, p_rel, q_mol, units=None, name="m-0"):
     mrep = tuple(units.get("m") or desc["units"]["m"])
     P = [float(ru.conv_pressure(float(v), REL, prep, fluid, T)) for v in p_rel]
     Q = [float(ru.conv_loading(float(v), MOL, lrep, fluid, T)) for v in q_mol]
+    if allow_des and use_des(desc):
+        # the generating data sit on the DESORPTION branch (stored high to low, as measured); the adsorption branch holds a
+        # decoy curve, so an analysis that reads the wrong branch cannot recover the generator
+        decoy = [0.5 * v for v in Q]
+        return K.build_point({
+            "units": K.units_dict(prep, lrep, mrep), "adsorbate": desc["adsorbate"], "T": T,
+            "material": {"name": name, "density": 1.7, "molar_mass": 420.0},
+            "pressure": P + P[::-1], "loading": decoy + Q[::-1], "branch": [0] * len(P) + [1] * len(P),
+        })
     return K.build_point({
         "units": K.units_dict(prep, lrep, mrep), "adsorbate": desc["adsorbate"], "T": T,
         "material": {"name": name, "density": 1.7, "molar_mass": 420.0},
         "pressure": P, "loading": Q, "branch": "ads",
     })
+
+
+def use_des(desc):
+    """A third of the isotherm-entry cases put the data on the desorption branch (derived from the drawn temperature
+    fraction, so no extra descriptor field is needed)."""
+    return int(desc.get("u", 0.0) * 997) % 3 == 0
+
+
+def branch_of(desc):
+    return "des" if use_des(desc) else "ads"
 
 
 def unit_tol(*unit_sets):
@@ -539,7 +558,7 @@ def _bet_call(desc, p, q, lims):
         return call, cs, TOL
     iso = build_iso(desc, p, q)
     cs = iso_env(desc)[2]
-    return (lambda: area_BET(iso, p_limits=None if lims is None else list(lims))), cs, unit_tol(desc["units"])
+    return (lambda: area_BET(iso, branch=branch_of(desc), p_limits=None if lims is None else list(lims))), cs, unit_tol(desc["units"])
 
 
 def check_bet(desc, ctx):
@@ -702,7 +721,7 @@ def check_langmuir(desc, ctx):
         cs, tol = iso_env(desc)[2], unit_tol(desc["units"])
 
         def call():
-            return area_langmuir(iso, p_limits=None if lims is None else list(lims))
+            return area_langmuir(iso, branch=branch_of(desc), p_limits=None if lims is None else list(lims))
     what = (f"Langmuir[{desc['entry']}] n_m={nm!r} K={k!r} sigma={cs!r} on {len(p)} points p={p[0]:.6g}..{p[-1]:.6g}, "
             f"limits={lims}")
     if near:
@@ -810,7 +829,7 @@ def check_tplot(desc, ctx):
         _, _, _, M, rho = iso_env(desc)
         tol = unit_tol(desc["units"])
         iso = build_iso(desc, p, q_mmol * 1e-3)
-        out = t_plot(iso, thickness_model=name_or_fn, t_limits=None if lims is None else tuple(lims))
+        out = t_plot(iso, thickness_model=name_or_fn, branch=branch_of(desc), t_limits=None if lims is None else tuple(lims))
         results, t_curve = out["results"], out["t_curve"]
     what = (f"t-plot[{desc['entry']}] model={desc['model']} slope={s!r} intercept={ic!r} knee={knee} M={M!r} "
             f"rho={rho!r} on {len(p)} points p={p[0]:.6g}..{p[-1]:.6g}, t_limits={lims}")
@@ -888,7 +907,7 @@ def _alphas_iso(desc, ctx):
         p = lo + u * (hi - lo)
         q_mmol = _gen_loading(desc, p) * 1e3
         p_ref, qref_mmol = p, q_mmol
-        iso = ref_iso = build_iso(desc, p, q_mmol * 1e-3)
+        iso = ref_iso = build_iso(desc, p, q_mmol * 1e-3, allow_des=False)
         k_scale, ic = 1.0, 0.0
         units_all = (desc["units"],)
     else:
@@ -899,7 +918,7 @@ def _alphas_iso(desc, ctx):
         p = lo + (a + u * (b - a)) * (hi - lo)  # strictly inside the reference range
         k_scale, ic = desc["scale"], desc["icpt"]
         ref_units = dict(desc["ref_units"], m=desc["units"]["m"])
-        ref_iso = build_iso(desc, p_ref, qref_mmol * 1e-3, units=ref_units, name="m-ref")
+        ref_iso = build_iso(desc, p_ref, qref_mmol * 1e-3, units=ref_units, name="m-ref", allow_des=False)
         units_all = (desc["units"], ref_units)
     rp = 0.4 if desc["reducing"] is None else float(p_ref[0] + desc["reducing"] * (p_ref[-1] - p_ref[0]))
     if not p_ref[0] < rp < p_ref[-1]:
@@ -913,7 +932,7 @@ def _alphas_iso(desc, ctx):
         q_mmol = line_with_knee(alpha, k_scale * apt, ic, desc["knee"])
         if lims is not None and desc["perturb"] and ins[-1] < len(alpha) - 1:
             q_mmol[ins[-1] + 1:] *= 1 + desc["perturb"]
-        iso = build_iso(desc, p, q_mmol * 1e-3)
+        iso = build_iso(desc, p, q_mmol * 1e-3, allow_des=False)
     tol = unit_tol(*units_all)
     spec = desc["ref_area"]
     what = (f"alpha-s[{desc['entry']}] {desc['adsorbate']} at {T!r} K, sample units {desc['units']}, reference "
@@ -1011,8 +1030,8 @@ def check_dubinin(desc, ctx):
 
         def call():
             if mode == "dr":
-                return dr_plot(iso, p_limits=None if lims is None else list(lims))
-            return da_plot(iso, exp=exp_arg, p_limits=None if lims is None else list(lims))
+                return dr_plot(iso, branch=branch_of(desc), p_limits=None if lims is None else list(lims))
+            return da_plot(iso, exp=exp_arg, branch=branch_of(desc), p_limits=None if lims is None else list(lims))
     what = (f"Dubinin[{desc['entry']},{mode}] V={V!r} cm3 E={E!r} kJ/mol exponent={n_gen!r} T={T!r} M={M!r} rho={rho!r} "
             f"on {len(p)} points p={p[0]:.6g}..{p[-1]:.6g}, p_limits={lims}")
     res = refusal_protocol(what, call, ins, "dubinin", ctx, desc)
